@@ -24,6 +24,24 @@ CLAIMED = {
         technique="Coq proof (induction over histories) + history correspondence"),
 }
 
+CLAIMED["C06"] = dict(
+    text="Coq theorems at exact rational storage for any number of base quantities, exponents, non-zero base-unit coefficients and values: "
+         "re-basing preserves the physical magnitude, and + - * == < <= and mul_add between operands in different base-unit sets equal the "
+         "operation on the physical magnitudes, expressed in the left operand's base units; for floats, no rounding where both sides share a "
+         "base unit; tie: bit-exact (f32/f64) and exact (BigRational/BigInt) correspondence of the extracted operators with the compiled crate "
+         "over all ordered pairs of four base-unit sets, plus an exact-rational ulp checker on every implementation answer",
+    note=TB + "hypot is libm's (checked to 1e-13 / 1e-5 relative only); the float error bound of re-basing is checked per case by exact "
+         "rational arithmetic, its general Coq proof is listed in DESIGN as future work",
+    technique="Coq proof (exact arithmetic) + extracted-model correspondence + exact ulp oracle")
+CLAIMED["C10"] = dict(
+    text="Coq theorems: with shared base units (any base-unit set) each comparison operator and partial_cmp on quantities is the storage "
+         "type's; the six operators and partial_cmp are read off one three-way comparison (mutual coherence, mirror under swap, reflexivity "
+         "for non-NaN, NaN unordered, order = order of the real values); mixed-base exact storage decides the physical order exactly; tie: "
+         "full observation rows (==,!=,<,<=,>,>=,partial_cmp,cmp,max,min,clamp,hash) from the compiled crate for 8 storage types, with and "
+         "without autoconvert, and mixed-base rows with equal/adjacent/separated magnitudes, against the extracted model and the spec",
+    note=TB + "hash values compared only for equality within one process; mixed-base float ordering required only beyond the rounding bound",
+    technique="Coq proof + observation-row correspondence")
+
 NOT_YET = "check under construction in this build phase; will be claimed once bin/check implements it"
 
 
